@@ -42,6 +42,14 @@ func mapOrderAudit(c *Ctx, rule string, fns []*ssa.Function, strict bool) (range
 						found = true
 					}
 				}
+				// ... or hands one to an iterator of package maps (audited below like a range)
+				if call, ok := in.(*ssa.Call); ok && len(call.Call.Args) > 0 {
+					if g := staticCallee(&call.Call); g != nil && pkgPathOf(g) == "maps" {
+						if _, isMap := call.Call.Args[0].Type().Underlying().(*types.Map); isMap {
+							found = true
+						}
+					}
+				}
 			})
 			return found
 		}
@@ -373,14 +381,26 @@ func runC19(c *Ctx) {
 					}
 				}
 				kind, why := "", ""
+				// the error of a helper of the conversion unit handed on as it is (`return fromString(v)`): the helper is
+				// judged itself
+				delegated := false
+				if ex, ok := p.Rets[len(p.Rets)-1].V.(*ssa.Extract); ok {
+					if call, ok := ex.Tuple.(*ssa.Call); ok {
+						if g := staticCallee(&call.Call); g != nil && (g == from || unit[g]) {
+							delegated = true
+						}
+					}
+				}
 				switch {
+				case delegated:
+					kind = "element refused"
 				case last == nil:
 					why = "an error is returned unconditionally"
 				case isTypeTest(last.Args[0].V):
 					if !last.Taken && !armTaken {
 						kind = "unsupported type"
 					} else {
-						why = "an error is returned for a type the switch has an arm for, without any further test"
+						why = fmt.Sprintf("an error is returned for a type the switch has an arm for, without any further test (returns %T %s)", p.Rets[len(p.Rets)-1].V, Expr(p.Rets[len(p.Rets)-1].V))
 					}
 				default:
 					cond, neg := last.Args[0].V, false
